@@ -418,7 +418,7 @@ def growth_families():
 def growth_shard(arg):
     name, sizes = arg
     part = engine.Part()
-    w = engine.worker("fast")   # the shipped optimisation level and the default 8 MB stack
+    w = engine.worker("fast", stack_kb=8192)   # the shipped optimisation level and (explicitly) the default 8 MB stack
     fam = growth_families()[name]
     times = []
     for n in sizes:
